@@ -503,6 +503,9 @@ func samDrive(args []string) error {
 		if sid%4 == 0 {
 			nr = r.Intn(4)
 		}
+		if sid%8 == 6 {
+			nr = 6 + r.Intn(10)
+		}
 		var file []byte
 		want := []samItem{}
 		crlf := r.Intn(4) == 0
@@ -524,6 +527,14 @@ func samDrive(args []string) error {
 			s := samRecord(r)
 			if sid%8 == 1 && i == nr/2 {
 				s = samLong(r, []int{2500, 33000, 70000}[(sid/8)%3])
+			}
+			if sid%8 == 6 { // reference names that collide under common string hashes, in turn
+				cn := collidingNames()
+				pr := cn[(sid/8)%len(cn)]
+				s.Rname, s.Rnext = pr[i%2], pr[(i/2)%2]
+				if i%5 == 4 {
+					s.Qname = pr[(i/5)%2]
+				}
 			}
 			if sid%8 == 5 && i == nr/2 { // lines of exactly a power of two bytes (one less under CRLF: the CR makes it up)
 				sizes := []int{4096, 32768, 65536}
